@@ -183,3 +183,14 @@ package results
 //@   loop range:f.ProtocolMaps exits-early-only-if [every-protocol-name-is-visited] false
 //@   loop range:protocolSymbols exits-early-only-if [every-prefix-entry-is-returned] false
 //@ end
+// the outline entry of a global table ends where its last member ends: the running end is the LEXICOGRAPHIC (line, column)
+// maximum over the members - an order-independent fold, the members being visited in hash-map order (C09)
+//@ func (*FileResult).FindAllSymbol
+//@   props C09 C19
+//@   loop range:oneVar.SubMaps step [end-of-a-table-entry-is-the-lexicographic-maximum-over-its-members] !streq(subOneSymbol.Name, "") ==>
+//@        ((subOneSymbol.Loc.EndLine > prev(maxLoc.EndLine) || (subOneSymbol.Loc.EndLine == prev(maxLoc.EndLine) && subOneSymbol.Loc.EndColumn > prev(maxLoc.EndColumn)))
+//@            ==> maxLoc.EndLine == subOneSymbol.Loc.EndLine && maxLoc.EndColumn == subOneSymbol.Loc.EndColumn)
+//@        && (!(subOneSymbol.Loc.EndLine > prev(maxLoc.EndLine) || (subOneSymbol.Loc.EndLine == prev(maxLoc.EndLine) && subOneSymbol.Loc.EndColumn > prev(maxLoc.EndColumn)))
+//@            ==> maxLoc.EndLine == prev(maxLoc.EndLine) && maxLoc.EndColumn == prev(maxLoc.EndColumn))
+//@   loop range:oneVar.SubMaps exits-early-only-if [every-member-is-folded-in] false
+//@ end
